@@ -945,10 +945,16 @@ type ComposeOpts struct {
 	Consumed *lin.Form
 	// Start: initial cursor of the parser (bytes).
 	Start int64
+	// Params: integer parameters of the parser given by its caller (name without $ -> value).
+	Params map[string]lin.Form
 }
 
 // compare walks the parsed structure type and compares every leaf with the written structure's field.
 func (k *composer) compare(res *Composition, t types.Type, pv pathint.Val, exp string, expPtr bool, path string, cond string, opts ComposeOpts) {
+	if want, isComputed := opts.Computed[path]; isComputed && want == nil {
+		res.Fields = append(res.Fields, FieldResult{Path: path, OK: true, Skip: true, Detail: "exempt: " + opts.Why[path]})
+		return
+	}
 	if p, ok := t.Underlying().(*types.Pointer); ok {
 		switch pv.K {
 		case pathint.KNilPtr:
@@ -962,7 +968,16 @@ func (k *composer) compare(res *Composition, t types.Type, pv pathint.Val, exp s
 			}
 			st, isStruct := p.Elem().Underlying().(*types.Struct)
 			if !isStruct {
-				res.Fields = append(res.Fields, FieldResult{Path: path, Detail: "pointer to non-struct not compared" + cond})
+				// pointer to a plain value (e.g. *[]byte): compare what it points to
+				cell, ok := k.po.Mem[joinKey(pv.O.ID, pv.Sym)]
+				if !ok {
+					cell = zeroOf(p.Elem())
+				}
+				target := exp
+				if strings.Contains(target, ".") {
+					target = strings.ReplaceAll(target, ".", "/")
+				}
+				k.compare(res, p.Elem(), cell, target, false, path, cond, opts)
 				return
 			}
 			for i := 0; i < st.NumFields(); i++ {
@@ -1004,7 +1019,57 @@ func (k *composer) compare(res *Composition, t types.Type, pv pathint.Val, exp s
 		}
 		return
 	}
+	if sl, ok := t.Underlying().(*types.Slice); ok && !isByteType(sl.Elem()) {
+		k.sliceOf(res, sl, pv, exp, path, cond, opts)
+		return
+	}
 	k.leaf(res, t, pv, exp, path, cond, opts)
+}
+
+func isByteType(t types.Type) bool {
+	b, ok := t.Underlying().(*types.Basic)
+	return ok && (b.Kind() == types.Uint8 || b.Kind() == types.Byte)
+}
+
+// sliceOf compares a parsed list of structures with the written list, element by element (lists are explored for
+// the small lengths the writer's loops were unrolled to).
+func (k *composer) sliceOf(res *Composition, sl *types.Slice, pv pathint.Val, exp string, path string, cond string, opts ComposeOpts) {
+	ln := lin.Sym("len(" + exp + ")")
+	lp := path + "[#]"
+	if pv.K != pathint.KSlice || pv.S == nil {
+		res.Fields = append(res.Fields, FieldResult{Path: lp, Detail: "parsed list is not tracked" + cond})
+		return
+	}
+	got := k.c.IP.SimplifyForm(pv.S.Len, k.st)
+	if got.IsConst() && got.C == 0 && !k.mentioned(exp) {
+		if k.st.ProveSimplified(ln.Scale(-1)) {
+			res.Fields = append(res.Fields, FieldResult{Path: lp, OK: true, Detail: "empty list"})
+		} else {
+			res.Fields = append(res.Fields, FieldResult{Path: lp, OK: true, Skip: true, Detail: "not transmitted"})
+		}
+		return
+	}
+	d := got.Sub(ln)
+	if !(k.st.ProveSimplified(d) && k.st.ProveSimplified(d.Scale(-1))) {
+		res.Fields = append(res.Fields, FieldResult{Path: lp, Detail: fmt.Sprintf("parsed list has %s elements, written list has %s%s", got, ln, cond)})
+		return
+	}
+	if got.IsConst() && got.C == 0 {
+		res.Fields = append(res.Fields, FieldResult{Path: lp, OK: true, Detail: "empty list"})
+		return
+	}
+	if pv.S.Elems == nil || !got.IsConst() || int64(len(pv.S.Elems)) != got.C {
+		res.Fields = append(res.Fields, FieldResult{Path: lp, Detail: "the elements of the parsed list are not tracked" + cond})
+		return
+	}
+	res.Fields = append(res.Fields, FieldResult{Path: lp, OK: true, Detail: fmt.Sprintf("%d elements", got.C)})
+	for i, ev := range pv.S.Elems {
+		elemExp := strings.ReplaceAll(fmt.Sprintf("%s.[%d]", exp, i), ".", "/")
+		if _, isPtr := sl.Elem().Underlying().(*types.Pointer); !isPtr {
+			elemExp = fmt.Sprintf("%s.[%d]", exp, i)
+		}
+		k.compare(res, sl.Elem(), ev, elemExp, true, path+"[]", cond, opts)
+	}
 }
 
 func isPtr(t types.Type) bool { _, ok := t.Underlying().(*types.Pointer); return ok }
@@ -1061,12 +1126,37 @@ func (k *composer) absent(res *Composition, t types.Type, exp string, expPtr boo
 				continue
 			}
 		}
+		if sl, ok := f.Type().Underlying().(*types.Slice); ok && !isByteType(sl.Elem()) {
+			ln := lin.Sym("len(" + name + ")")
+			if k.st.ProveSimplified(ln.Scale(-1)) || !k.mentioned(name) {
+				res.Fields = append(res.Fields, FieldResult{Path: p + "[#]", OK: true, Skip: true, Detail: "not transmitted"})
+			} else {
+				res.Fields = append(res.Fields, FieldResult{Path: p + "[#]", Detail: "a list is written to the stream but the parser leaves the enclosing pointer nil" + cond})
+			}
+			continue
+		}
 		if k.transmitted(name) {
 			res.Fields = append(res.Fields, FieldResult{Path: p, Detail: "written to the stream but the parser leaves the enclosing pointer nil" + cond})
 		} else {
 			res.Fields = append(res.Fields, FieldResult{Path: p, OK: true, Skip: true, Detail: "not transmitted"})
 		}
 	}
+}
+
+// mentioned: some emitted bit or byte string belongs to the structure below name.
+func (k *composer) mentioned(name string) bool {
+	pre := strings.ReplaceAll(name, ".", "/") + "/"
+	for a := range k.src.Emitted {
+		if strings.HasPrefix(strings.TrimPrefix(a.Src, "p:"), pre) {
+			return true
+		}
+	}
+	for _, ch := range k.src.Chunks {
+		if ch.Kind == CBlob && strings.HasPrefix(strings.TrimPrefix(ch.Blob, "padded:"), pre) {
+			return true
+		}
+	}
+	return false
 }
 
 func (k *composer) transmitted(name string) bool {
@@ -1188,6 +1278,21 @@ func (k *composer) leaf(res *Composition, t types.Type, pv pathint.Val, exp stri
 			if pv.S.Blob != "" {
 				b, ok = pv.S.Blob, true
 			}
+			if !ok {
+				// a sub-slice of a larger fetch: does it coincide with one written byte string?
+				for _, e := range k.po.Events {
+					if e.Kind != "fetch" || e.ID != pv.S.Event {
+						continue
+					}
+					pos := k.c.IP.SimplifyForm(k.tr(e.Off).Add(k.tr(pv.S.Off)), k.st).Scale(8)
+					if ch := k.chunkAt(pos); ch != nil && ch.Kind == CBlob {
+						d := k.c.IP.SimplifyForm(ch.Len.Sub(k.tr(pv.S.Len)), k.st)
+						if (d.IsConst() && d.C == 0) || (k.st.ProveSimplified(d) && k.st.ProveSimplified(d.Scale(-1))) {
+							b, ok = ch.Blob, true
+						}
+					}
+				}
+			}
 			if ok {
 				if b == "padded:"+exp {
 					k.note("len(" + exp + ") equals the fixed size of its field (it is padded / cut to that size)")
@@ -1205,7 +1310,7 @@ func (k *composer) leaf(res *Composition, t types.Type, pv pathint.Val, exp stri
 			res.Fields = append(res.Fields, FieldResult{Path: path, OK: true, Skip: true, Detail: "not transmitted / empty"})
 			return
 		}
-		res.Fields = append(res.Fields, FieldResult{Path: path, Detail: "written bytes " + exp + " are not what the parser returns" + cond})
+		res.Fields = append(res.Fields, FieldResult{Path: path, Detail: fmt.Sprintf("written bytes %s are not what the parser returns (parsed: %s blob=%q event=%q)%s", exp, pv, pv.S.Blob, pv.S.Event, cond)})
 	default:
 		if !k.transmitted(exp) {
 			res.Fields = append(res.Fields, FieldResult{Path: path, OK: true, Skip: true, Detail: "not transmitted"})
